@@ -2134,7 +2134,7 @@ func explainStatisticsTypeFunction(sb *strings.Builder, fn *ast.FunctionCall, in
 	} else {
 		fmt.Fprintf(sb, "%s ExpressionList (children %d)\n", indent, len(fn.Arguments))
 		for _, arg := range fn.Arguments {
-			Node(sb, arg, depth+1)
+			Node(sb, arg, depth+2)
 		}
 	}
 }
